@@ -76,6 +76,8 @@ def entries(tier="quick"):
     add("SVDLinear(cache)", lambda: svd.SVDLinear(3, num_householder=2, using_cache=True, identity_init=False), [3])
     add("NaiveLinear(cache)", lambda: linear.NaiveLinear(3, orthogonal_initialization=False, using_cache=True), [3])
     add("OneByOneConvolution(cache)", lambda: conv.OneByOneConvolution(3, using_cache=True, identity_init=False), [3, 2, 2])
+    add("SVDLinear(eps=0.05, cache)", lambda: svd.SVDLinear(3, num_householder=2, using_cache=True, identity_init=False, eps=0.05), [3])
+    add("LULinear(eps=0.05)", lambda: lu.LULinear(3, identity_init=False, eps=0.05), [3])
     add("HouseholderSequence", lambda: orthogonal.HouseholderSequence(3, 2), [3])
     add("OneByOneConvolution", lambda: conv.OneByOneConvolution(3, identity_init=False), [3, 2, 2])
     # ---- normalisation (evaluation mode; ActNorm also initialised from data in the harness)
@@ -206,4 +208,35 @@ def build(e, seed, dtype=torch.float64, train=False, flat=False, fresh=False):
         with torch.no_grad():
             t(x, c)
     t.train(train)
+    return t
+
+
+def perturbed_state(t, seed, amount=0.2):
+    """a copy of t's state dict with every floating-point entry scaled by 1 + amount * noise (signs and positivity kept): some
+    other checkpoint of the same architecture"""
+    import copy
+    g = torch.Generator()
+    g.manual_seed(seed)
+    sd = copy.deepcopy(t.state_dict())
+    for k, v in sd.items():
+        if v.dtype.is_floating_point and v.numel() > 0:
+            sd[k] = v * (1.0 + amount * torch.randn(v.shape, generator=g).clamp(-2, 2).to(v.dtype))
+    return sd
+
+
+def used_then_loaded(e, seed, dtype=torch.float64):
+    """an instance that has been evaluated (evaluation mode, no gradients, both directions) and THEN received another
+    checkpoint through load_state_dict: whatever it memoised from its old parameters must not survive.  -> transform or None"""
+    t = build(e, seed, dtype)
+    x, c = sample_inputs(e, 3, seed + 3, dtype)
+    with torch.no_grad():
+        try:
+            y, _ = t(x, c)
+            t.inverse(y, c)
+        except Exception:
+            pass
+    try:
+        t.load_state_dict(perturbed_state(t, seed + 4))
+    except Exception:
+        return None
     return t
